@@ -103,28 +103,28 @@ theorem ecdsa_recover_signer_ec (K : CurveOk p C) (h34 : p % 4 = 3) {c q k : ℤ
 
 end
 
-/-! ## secp256k1: primality of `p` and `n` are the only assumptions -/
+/-! ## secp256k1: no assumption (primality of `p`, `n`: `secp256k1_p_prime`, `secp256k1_n_prime`, Pratt certificates) -/
 
-theorem ecdsa_sign_verifies_secp256k1 (hp : Nat.Prime secp256k1_p) (hn : Nat.Prime secp256k1_n)
+theorem ecdsa_sign_verifies_secp256k1
     {c q k : ℤ} {lowerS : Bool} {r s kid : ℤ} (hk : 0 < k ∧ k < secp256k1.n)
     (h : signRecoverable (EC.ops secp256k1) c q k lowerS = .ok (r, s, kid)) :
     Ecdsa.verify (EC.ops secp256k1) c ((EC.ops secp256k1).mul q secp256k1.G) r s = true ∧
       (lowerS = true → s ≤ secp256k1.n / 2) :=
-  @ecdsa_sign_verifies_ec secp256k1_p ⟨hp⟩ secp256k1 (secpOk hp hn) secp256k1_h34 c q k lowerS r s kid hk h
+  @ecdsa_sign_verifies_ec secp256k1_p ⟨secp256k1_p_prime⟩ secp256k1 secpOk secp256k1_h34 c q k lowerS r s kid hk h
 
-theorem ecdsa_verify_iff_sec1_secp256k1 (hp : Nat.Prime secp256k1_p) (hn : Nat.Prime secp256k1_n)
-    (c : ℤ) (Q : SecpPt hp) (r s : ℤ) :
-    Ecdsa.verify (EC.ops secp256k1) c Q.1 r s = true ↔ SEC1 (secpLawful hp hn) c Q r s :=
-  @ecdsa_verify_iff_sec1_ec secp256k1_p ⟨hp⟩ secp256k1 (secpOk hp hn) secp256k1_h34 c Q r s
+theorem ecdsa_verify_iff_sec1_secp256k1
+    (c : ℤ) (Q : SecpPt) (r s : ℤ) :
+    Ecdsa.verify (EC.ops secp256k1) c Q.1 r s = true ↔ SEC1 secpLawful c Q r s :=
+  @ecdsa_verify_iff_sec1_ec secp256k1_p ⟨secp256k1_p_prime⟩ secp256k1 secpOk secp256k1_h34 c Q r s
 
-theorem ecdsa_recover_signer_secp256k1 (hp : Nat.Prime secp256k1_p) (hn : Nat.Prime secp256k1_n)
+theorem ecdsa_recover_signer_secp256k1
     {c q k : ℤ} {lowerS : Bool} {r s kid : ℤ}
     (hk : 0 < k ∧ k < secp256k1.n) (hq : 0 < q ∧ q < secp256k1.n)
     (h : signRecoverable (EC.ops secp256k1) c q k lowerS = .ok (r, s, kid))
     (primeOrder lowerS' : Bool) (hl' : lowerS' = true → lowerS = true) :
     ∃ Q', recover (EC.ops secp256k1) primeOrder kid c r s lowerS' = .ok Q' ∧
       (EC.ops secp256k1).eq Q' ((EC.ops secp256k1).mul q secp256k1.G) = true :=
-  @ecdsa_recover_signer_ec secp256k1_p ⟨hp⟩ secp256k1 (secpOk hp hn) secp256k1_h34 c q k lowerS r s kid hk hq h
+  @ecdsa_recover_signer_ec secp256k1_p ⟨secp256k1_p_prime⟩ secp256k1 secpOk secp256k1_h34 c q k lowerS r s kid hk hq h
     primeOrder lowerS' hl'
 
 /-! ## the toy curve: an actual run, no hypothesis at all -/
